@@ -155,10 +155,7 @@ func (c *Ctx) sliceBytes(s Slice) ([]*Term, *Term) {
 	if s.arr == nil {
 		return nil, c.tb.Int(0, 64)
 	}
-	phys := s.cap
-	if s.n.isC {
-		phys = int(s.n.cval)
-	}
+	phys := c.physLen(s)
 	out := make([]*Term, phys)
 	for i := range out {
 		out[i] = s.arr.elems[s.off+i].(*Term)
